@@ -523,7 +523,25 @@ func runC15(rc *RC) {
 			// opener's own writer sends nothing after this - no unflushed tail, no incomplete base64 group held back for Close - so nobody misses the number.)
 			injs = append(injs, inj{"empty-then-replay", sid, strconv.Itoa(nextSeq % 65536), "", "unexpected-request"})
 		}
+		var lbPlain []byte
+		if tailA == 0 && !reverse && len(payload)%3 == 0 {
+			// a packet in sequence whose base64 text is wrapped into lines (what MIME encoders produce): the receiver may
+			// take it - then exactly the encoded bytes arrive - or refuse it as not base64 - then nothing arrives
+			lbPlain = []byte([]string{"ABCDEFGHI", "Hello", "line-wrapped base64 text of some length.", "ab"}[ch.Int("workload", 4)])
+			enc := base64.StdEncoding.EncodeToString(lbPlain)
+			var wrapped strings.Builder
+			brk := []string{"\n", "\r\n", "\n\n\n\n"}[ch.Int("workload", 3)]
+			step := 1 + ch.Int("workload", 8)
+			for i := 0; i < len(enc); i += step {
+				wrapped.WriteString(enc[i:min(len(enc), i+step)])
+				wrapped.WriteString(brk)
+			}
+			injs = append(injs, inj{"linebreak-base64", sid, strconv.Itoa(nextSeq % 65536), wrapped.String(), "result-or-bad-request"})
+		}
 		in := injs[ch.Int("workload", len(injs))]
+		if in.name == "linebreak-base64" {
+			in.want = "" // decided below
+		}
 		if in.name == "empty-then-replay" {
 			first := rc.Spawn("injector-empty", func() {
 				ictx, c2 := context.WithTimeout(ctx, 20*time.Second)
@@ -569,6 +587,21 @@ func runC15(rc *RC) {
 		rc.S.Run(func() bool { return it.Done() }, 200000, time.Minute)
 		rc.Fire("inject-" + in.name)
 		rc.Evals["C15.c4"]++
+		if in.name == "linebreak-base64" {
+			if it.Done() && ierr == nil && cond == "result" {
+				// accepted: the reader's stream continues with exactly these bytes
+				payload = append(append([]byte(nil), payload...), lbPlain...)
+				must1 = len(payload)
+				rc.S.Run(func() bool { return len(rdB.got) >= len(payload) }, 200000, 10*time.Second)
+				rc.Evals["C15.c2"]++
+				if !bytes.Equal(rdB.got, payload) {
+					rc.Failf("C15.c2", "bytes-differ:line-wrapped-base64", "a data packet whose base64 text is wrapped into lines was accepted, but the reader did not get exactly the encoded bytes: it has %d bytes, want %d; tail %q, want tail %q", len(rdB.got), len(payload), clip(string(rdB.got[max(0, len(rdB.got)-len(lbPlain)-4):]), 60), clip(string(payload[max(0, len(payload)-len(lbPlain)-4):]), 60))
+				}
+				in.want = "result"
+			} else {
+				in.want = "bad-request"
+			}
+		}
 		if !it.Done() || ierr != nil || cond != in.want {
 			rc.Failf("C15.c4", "bad-packet-not-refused:"+in.name, "injected %s packet: want stanza error %s, got %q (err %v, returned %v)", in.name, in.want, cond, ierr, it.Done())
 		}
